@@ -35,7 +35,10 @@ IDENT_SPELL = ["a", "foo", "x1", "a-b", "_u", "-v", "né", "\\31 a", "\\31 23", 
                # hex escapes of characters that are no name characters (delimiters of the syntax around them)
                "a\\7b ", "a\\20 b", "a\\2c b", "a\\3e b", "a\\2e b", "a\\3b b", "a\\3a b", "a\\7c b", "b\\  c", "x\\ ", "a\\5c b", "a\\a "]
 URLS = ["x.png", "a b.png", "a(b).png", "a'b.png", 'a"b.png', "é.png", "path/to/x.png?q=1&r=2#f", "data:image/png;base64,AAAA==", "a\\b.png", "", "x y(z)'.png"]
-COMMENTS = ["\\2a/ x", "a \\5c b", "c", " spaced ", "é€", "with * star", "with / slash", "a\nb", "\\41", "}{;", "'\"", "", "caf\u00e9\n  (c)", "3 \u20ac\nTTC", "\u03ba\n", "\u00e9\r\nx", "\u00e9 x", "\u00e9a", "\u00e91"]
+COMMENTS = ["\\2a/ x", "a \\5c b", "c", " spaced ", "é€", "with * star", "with / slash", "a\nb", "\\41", "}{;", "'\"", "", "caf\u00e9\n  (c)", "3 \u20ac\nTTC", "\u03ba\n", "\u00e9\r\nx", "\u00e9 x", "\u00e9a", "\u00e91",
+            # several lines whose first character is part of a would-be opener or closer ('/*/', '/**'), and lines that
+            # look like openers, closers or quotes further down
+            "/ mac ie5\nsecond line ", "*\n * doc\n ", "/\n/", "x /* opener\ny", "q \"\nz' ", "/* \n /*/ \n"]
 
 
 def css_string(r, content):
